@@ -192,6 +192,9 @@ func (eng *Engine) parseType(pkg *types.Package, s string) types.Type {
 	switch {
 	case s == "":
 		return nil
+	case s == "unit":
+		// the empty struct type `struct{}` (braces are not spec tokens)
+		return types.NewStruct(nil, nil)
 	case strings.HasPrefix(s, "*"):
 		t := eng.parseType(pkg, s[1:])
 		if t == nil {
